@@ -68,6 +68,19 @@ mutation ManyM($a: Ia) { m(a: $a) { id sa } }
 SCALARS = {"Sa": {"type": "str"}, "Sb": {"type": "int"}}
 
 
+UNPACKED_ONLY = """
+query UnpA { u { ...Ua ...Ub ...Uc } }
+query UnpB { node { ...Na ...Nb } ul { ...Uc ...Ua } user { ...Nu ...Nv } }
+fragment Ua on U { ... on User { id } }
+fragment Ub on U { ... on Admin { level } }
+fragment Uc on U { __typename }
+fragment Na on Node { id ... on User { name } }
+fragment Nb on Node { ... on Admin { perms } }
+fragment Nu on Node { id }
+fragment Nv on Named { name }
+"""
+
+
 def split_schema():
     defs = [d.strip() for d in corpus.SCHEMA_K.strip().split("\n}\n")]
     text = corpus.SCHEMA_K
@@ -91,6 +104,9 @@ def stress_inputs(tier):
     s.append(dict(label="split_files", strategy="client", schema=split_schema(),
                   queries={"q2.graphql": FAN_QUERIES.split("fragment Fa")[0], "sub/frags.gql": "fragment Fa" + FAN_QUERIES.split("fragment Fa", 1)[1], "sub/deeper/more.graphqls": "query Extra { user { id } }\n"},
                   options={"include_comments": "stable"}))
+    # operations whose only fragments are unpacked ones (on unions, with inline fragments, on an interface of the object): no mixin fragment anywhere
+    s.append(dict(label="unpacked_fragments_only", strategy="client", schema=corpus.SCHEMA_K, queries=UNPACKED_ONLY, options={}))
+    s.append(dict(label="unpacked_fragments_only_extract", strategy="client", schema=corpus.SCHEMA_K, queries=UNPACKED_ONLY, options={"plugins": [PLUGINS["extract"]]}))
     enum_frag_schema = "\n".join(f"enum En{i} {{ A B }}" for i in range(6)) + "\ntype Item { id: ID! " + " ".join(f"e{i}: En{i}" for i in range(6)) + " }\ntype Query { item: Item items: [Item!]! }\n"
     enum_frag_queries = "query GetItem { item { ...Fa ...Fb ...Fc } items { ...Fd ...Fe id e5 } }\n" + "\n".join(f"fragment F{c} on Item {{ e{i} }}" for i, c in enumerate("abcde")) + "\n"
     s.append(dict(label="enums_in_mixin_fragments_pruned", strategy="client", schema=enum_frag_schema, queries=enum_frag_queries, options={"include_all_enums": False, "include_all_inputs": False}))
